@@ -1021,9 +1021,10 @@ def _table_columns(seed, only=None):
             except Exception as exc:    # noqa
                 recs, err = [], "%s: %s" % (type(exc).__name__, exc)
             n_rec += len(recs)
-            evaluations += 1
+            inp = {"table": label, "Z": Z, "A": A, "field": "len"}
+            if only is None or only == inp:
+                evaluations += 1
             if len(recs) != len(mine):
-                inp = {"table": label, "Z": Z, "A": A, "field": "len"}
                 if only is None or only == inp:
                     viol.append({"key": "table_columns:count:%s:%s" % (mine[0]["isotope"], label),
                                  "what": "%s has %d rows in activation.dat but %d records%s"
